@@ -225,9 +225,11 @@ pub mod checks {
     pub static CUR: std::sync::Mutex<Option<(String, String, std::time::Instant)>> = std::sync::Mutex::new(None);
     pub fn watch(group: &str, what: impl FnOnce() -> String) {
         static N: std::sync::atomic::AtomicU64 = std::sync::atomic::AtomicU64::new(0);
-        // publishing every evaluation would dominate the run time of the large groups: every 64th is enough to bound a hang
+        // publishing every evaluation would dominate the run time of the large groups: every 8th is enough to bound a hang.  The slot is shared by
+        // the worker threads, so an entry is STALE only if no thread published for the whole limit: with every 8th evaluation published and a
+        // 300 s limit that needs all threads to be starved for minutes (seen once with every 64th / 120 s on a machine under load 60)
         let n = N.fetch_add(1, std::sync::atomic::Ordering::Relaxed);
-        if group == "arith" || group == "text_arith" || n % 64 == 0 { *CUR.lock().unwrap() = Some((group.to_string(), what(), std::time::Instant::now())); }
+        if group == "arith" || group == "text_arith" || n % 8 == 0 { *CUR.lock().unwrap() = Some((group.to_string(), what(), std::time::Instant::now())); }
     }
     pub fn unwatch() { *CUR.lock().unwrap() = None; }
 
